@@ -21,6 +21,7 @@ type SpecEnv struct {
 	st    *State
 	old   *State
 	iter  *State
+	pre   *State // state just before the current loop (for pre())
 	names map[string]Val
 	scope *types.Scope
 	pos   token.Pos
@@ -446,6 +447,16 @@ func (env *SpecEnv) evalCall(x *ast.CallExpr) Val {
 				n.names[k] = v
 			}
 		}
+		r := n.eval(x.Args[0])
+		env.failed = env.failed || n.failed
+		return r
+	case "pre":
+		if env.pre == nil {
+			env.errorf("pre() outside a loop invariant")
+			return intVal(Zero)
+		}
+		n := *env
+		n.st = env.pre
 		r := n.eval(x.Args[0])
 		env.failed = env.failed || n.failed
 		return r
